@@ -329,6 +329,24 @@ func JSONDecode(v interface{}) error {
 	return JSONDecodeFn(v)
 }
 
+// json.Marshal / json.Unmarshal under the engine: Marshal keeps the value and returns a handle as
+// "bytes"; Unmarshal looks the handle up and lets the harness hook copy it into the target.
+var jsonStore []interface{}
+
+var JSONUnmarshalFn func(stored, into interface{}) error
+
+func JSONMarshal(v interface{}) ([]byte, error) {
+	jsonStore = append(jsonStore, v)
+	return []byte{'#', byte(len(jsonStore) - 1)}, nil
+}
+
+func JSONUnmarshal(data []byte, into interface{}) error {
+	if len(data) != 2 || data[0] != '#' || int(data[1]) >= len(jsonStore) || JSONUnmarshalFn == nil {
+		return errors.New("verif: JSON bridge: unknown handle")
+	}
+	return JSONUnmarshalFn(jsonStore[data[1]], into)
+}
+
 // MkdirAllFn is what os.MkdirAll(path, ...) returns under the engine (nil when unset).
 var MkdirAllFn func(path string) error
 
